@@ -528,7 +528,9 @@ PROPS.update({
                 explanation="crash recoverability", assumptions=OS_ASSUMPTIONS),
     "C10": dict(theorems=[], gen=scripts_c10, project=proj_recovery, oracle=oracle_c10, nontrivial=lambda s: len(s) > 6,
                 explanation="torn / zero tail", assumptions=OS_ASSUMPTIONS),
-    "C09": dict(theorems=[], gen=scripts_c09, project=proj_recovery, oracle=oracle_c09, nontrivial=lambda s: len(s) > 6,
+    "C09": dict(theorems=["c09_crcBit_bijective", "c09_crcByte_injective", "c09_crc32_single_byte",
+                          "c09_body_byte_detected", "c09_body_byte_decode_rejected", "c09_sum_bytes_detected"],
+                gen=scripts_c09, project=proj_recovery, oracle=oracle_c09, nontrivial=lambda s: len(s) > 6,
                 explanation="corruption detection", assumptions=OS_ASSUMPTIONS),
 })
 
